@@ -58,7 +58,7 @@ def sample_group(spec_name, rng, regime, ang=None):
         if ang is not None:
             u = _rand_unit(rng, 3)
             sgn = rng.choice([-1, 1])
-            return [x * ang for x in u] + [sgn * mp.sqrt(1 - ang * ang)]
+            return [x * mp.sin(ang) for x in u] + [sgn * mp.cos(ang)]
         if regime % 11 == 9 or regime % 11 == 10:   # vector part around the small-angle switch-overs (|v|^2 ~ eps)
             mag = mp.mpf(10) ** mp.mpf(rng.uniform(-7.5, -6.2))
             u = _rand_unit(rng, 3)
@@ -322,9 +322,25 @@ class PathCtx:
                 break
         return out
 
-    def project_model(self, model):
-        """turn a z3 model into an input satisfying the precondition exactly (re-normalise rotation parts)"""
+    def project_model(self, model, angles=False):
+        """turn a z3 model into an input satisfying the precondition exactly (re-normalise rotation parts);
+        angles=True: a variable that is the argument of a sin/cos generator pair takes the angle of the
+        model's (sin, cos) values"""
         vals = {}
+        ang = {}
+        if angles:
+            alg = self.alg
+            names = list(alg.gen.keys())
+            for (sn, cn) in alg.trig_gens:
+                a = alg.gen_atom[sn][0].args[0]
+                if len(a) == 1 and model.get(sn) is not None and model.get(cn) is not None:
+                    (mon, coef), = a.items()
+                    nz = [(i, e) for i, e in enumerate(mon) if e]
+                    if len(nz) == 1 and nz[0][1] == 1 and names[nz[0][0]] in alg.var_names:
+                        s_ = mp.mpf(model[sn].numerator) / mp.mpf(model[sn].denominator)
+                        c_ = mp.mpf(model[cn].numerator) / mp.mpf(model[cn].denominator)
+                        cf = mp.mpf(int(coef.numerator)) / mp.mpf(int(coef.denominator))
+                        ang[names[nz[0][0]]] = mp.atan2(s_, c_) / cf
         for i in self.inputs:
             names = i.names()
             xs = []
@@ -348,7 +364,7 @@ class PathCtx:
                             xs[j] = xs[j] / s
                         run = []
             for n, x in zip(names, xs):
-                vals[n] = x
+                vals[n] = ang.get(n, x)
         return vals
 
     # ---- obligations
@@ -367,6 +383,7 @@ class PathCtx:
             return False
         poison = alg.poison_names()
         ok_all = True
+        self.rep.check_budget()
         for idx in np.ndindex(L.shape):
             oname = "%s/%s%s" % (self.label, name, list(idx) if idx else "")
             t0 = time.time()
@@ -593,16 +610,30 @@ class PathCtx:
             z = smt.Z3Ctx(alg, timeout_ms)
             dec = z.decisions(self.path)
             e = z.expr(q)
-            cs = z.base_constraints(self.extra_facts_z3(z)) + dec
+            cs = z.base_constraints(self.extra_facts_z3(z), without_inverses=True) + dec
             cs.append(e < 0 if what == "sqrt_arg_nonneg" else e == 0)
             r, model, dt = z.check(cs)
             if r == "unsat":
                 self.rep.ok(oname, "SAFE", "z3", dt, detail={"path": self.path.key, "cannot_vanish": str(q)[:200]})
             elif r == "sat":
-                vals = self.project_model(model) if model else None
+                vals = self.project_model(model, angles=True) if model else None
                 replay = self.make_replay(vals) if vals else {}
-                replay["failing_input_reproduced"] = bool(vals) and numeval.DagEval(self.path, vals).follows_path()
-                self.rep.fail(oname, "SAFE", "z3", {"path": self.path.key, "what": what, "expression": str(q)[:300]}, replay, dt)
+                hit = False
+                if vals:
+                    try:
+                        gv = numeval.gen_values(alg, vals)
+                        qv = numeval.poly_value(alg, q, gv)
+                        hit = (qv < 0) if what == "sqrt_arg_nonneg" else abs(qv) < mp.mpf(10) ** (-12)
+                    except (ZeroDivisionError, ValueError, TypeError):
+                        hit = True     # evaluating the generators already divides by zero at this input
+                    no = replay.get("native_outputs") or {}
+                    bad = any((x != x or abs(x) > 1e300) for vs_ in no.values() for x in vs_)
+                    replay["native_output_non_finite"] = bad
+                    hit = hit and (bad or not no)
+                replay["failing_input_reproduced"] = bool(hit)
+                self.rep.fail(oname, "SAFE", "z3", {"path": self.path.key, "what": what, "expression": str(q)[:300],
+                                                    "model": {k: str(x) for k, x in (model or {}).items() if x is not None}},
+                              replay, dt)
                 ok = False
             else:
                 self.rep.standin(oname, "SAFE", "z3-unknown", {"path": self.path.key, "what": what, "expression": str(q)[:200]})
